@@ -34,8 +34,8 @@ func VerifParse(b []byte, opts ...Option) (val any, err error, exprCnt uint64, e
 				case errNoRule:
 					kind = "norule"
 				}
-				if kind == "" && pe.expected != nil {
-					// only the farthest-failure entry built at the end of parse() carries an expected list
+				if kind == "" && len(pe.expected) > 0 {
+					// only the farthest-failure entry built at the end of parse() carries a non-empty expected list
 					kind = "nomatch"
 				}
 				errs = append(errs, VerifError{Offset: pe.pos.offset, Prefix: pe.prefix, Msg: pe.Inner.Error(), Kind: kind})
